@@ -356,13 +356,15 @@ def _gen_relocations(r, ob, sizes, flt, max_relocs, base):
 # debug info
 
 
-def gen_debug(r, ob, encodings=(1,)):
+def gen_debug(r, ob, encodings=(1,), pointer_first=0.0):
     """Random DebugSpec referring to the symbol ids of object spec ``ob``.
 
     Types: base, struct (possibly recursive through a pointer), pointer, array;
     every type that is referred to is listed, structs before the pointers that
     close a cycle.  Addresses: fixed (symbol id), fp-relative (offset, size),
     unknown.  ``encodings``: values used for DebugBaseType.encoding.
+    ``pointer_first``: probability that the pointer closing a struct cycle is
+    listed *before* its struct.
     """
     types = []
     for name, size in r.sample([("int", 4), ("char", 1), ("long", 8), ("double", 8), ("void", 0), ("short", 2)],
@@ -381,6 +383,11 @@ def gen_debug(r, ob, encodings=(1,)):
             for fi in range(r.randrange(0, 4)):
                 fields.append(["f%d" % fi, r.randrange(len(types)), offset])
                 offset += r.choice([1, 2, 4, 8])
+            if r.random() < pointer_first:  # pointer listed first, then struct S { ...; struct S *next; }
+                types.append({"kind": "pointer", "to": me + 1})
+                fields.append(["next", me, offset])
+                types.append({"kind": "struct", "fields": fields})
+                continue
             types.append({"kind": "struct", "fields": fields})
             if r.random() < 0.5:  # struct S { ...; struct S *next; }
                 types.append({"kind": "pointer", "to": me})
